@@ -530,6 +530,17 @@ impl Rule {
 
     /// Load a rule from a YAML Value.
     pub fn from_value(value: serde_yaml::Value) -> crate::Result<Self> {
+        // NOTE: Keys that are not ours are ignored. From text every scalar key is read by its text,
+        // so `1:` or `~:` are skipped like any unknown name; a value has to skip them as well.
+        let value = match value {
+            Yaml::Mapping(mapping) => Yaml::Mapping(
+                mapping
+                    .into_iter()
+                    .filter(|(k, _)| !matches!(k, Yaml::Null | Yaml::Bool(_) | Yaml::Number(_)))
+                    .collect(),
+            ),
+            value => value,
+        };
         serde_yaml::from_value(value).map_err(crate::error::rule_invalid)
     }
 
